@@ -42,7 +42,7 @@ Theorem bad_request_poisons_batch :
   let bad : req := [[(7%N, 0%nat)]; []; [(7%N, 2%nat)]; [(7%N, 3%nat)]; [(7%N, 4%nat)]] in
   let good : req := table_of 5 [8%N] in
   let tr := [GEnvReq 0 KSamples 1%N bad 10%Z; GEnvReq 0 KSamples 2%N good 10%Z;
-             GSvc 0 SPlan; GSvc 0 (SDial true); GSvc 0 SSwap] in
+             GSvc 0 SPlan; GSvc 0 (SDial true); GSvc 0 SSwap; GSvc 0 SSend] in
   wf_reqb KSamples good = true /\
   exists g es b, grun (ginit [(KSamples, 0%nat, 0%Z)] 1%N) tr = Some (g, es) /\
     In (EResolve (PEnv 1%N) KSamples bad true) es /\
@@ -61,7 +61,7 @@ Proof.
   intros H.
   specialize (H [(KSamples, 0%nat, 0%Z)] 1%N
      [GEnvReq 0 KSamples 1%N [[(7%N, 0%nat)]; []; [(7%N, 2%nat)]; [(7%N, 3%nat)]; [(7%N, 4%nat)]] 10%Z;
-      GEnvReq 0 KSamples 2%N (table_of 5 [8%N]) 10%Z; GSvc 0 SPlan; GSvc 0 (SDial true); GSvc 0 SSwap]).
+      GEnvReq 0 KSamples 2%N (table_of 5 [8%N]) 10%Z; GSvc 0 SPlan; GSvc 0 (SDial true); GSvc 0 SSwap; GSvc 0 SSend]).
   vm_compute in H. eapply H; reflexivity.
 Qed.
 Print Assumptions blocks_good_any_request_refuted.
